@@ -16,6 +16,9 @@ Decided structurally:
                        they are split into, incl. Results handed on as closure / helper arguments) is discarded
 R4's insert obligations are stated on the Env::insert *effect* reached from read_platform_env (lib/effects) with key, value
 and guards in normal form (C06_helpers.resolve), so they do not depend on loop vs iterator adapters or helper extraction.
+R2 reads "element k of argv" in normal form (C06_helpers.element: slice patterns, split_first / sub-slices / slice->array
+conversion / array::map, private helpers inlined); R4's guard and R6 read file-type tests in normal form (C06_helpers.file_test:
+Path::is_file(p) = fs::metadata(p) ok and is_file); R5 reads "kind() == NotFound" in normal form (C06_helpers.not_found_test).
 Not decided: equality of parsed TOML values with the document (toml crate), file contents.
 """
 from .lib.discard import result_fates, local_fates, verdict
@@ -76,6 +79,23 @@ def toml_read_path(v):
     return None
 
 
+def comps_p(v, is_root):
+    """layer_env_common.comps, with the root predicate seeing the value *before* `?`/unwrap is stripped (so that it can
+    require the root to be a propagated read whether or not a conversion call is wrapped around the payload)"""
+    if v is None:
+        return None
+    if is_root(v) or is_root(strip(v)):
+        return ()
+    v = strip(v)
+    if v[0] == 'call' and v[1] in L.JOIN and len(v[2]) == 2:
+        a = comps_p(v[2][0], is_root)
+        if a is None:
+            return None
+        b = strip(v[2][1])
+        return a + ((b[1] if b[0] == 'const' else b),)
+    return None
+
+
 def args_field(v, fn_path, name):
     v = strip(v)
     return v[0] == 'field' and v[2] == name and v[1][0] == 'param' and v[1][1] == fn_path and v[1][2] == 1
@@ -86,6 +106,22 @@ def env_var_name(v):
     if v[0] == 'call' and v[1] in ('std::env::var', 'std::env::var_os') and strip(v[2][0])[0] == 'const':
         return strip(v[2][0])[1]
     return None
+
+
+def stat_predicate(sl, f, c, fates):
+    """every place where the Result of the stat call c is dropped is a spelling of Path::is_file / is_dir / exists on the same
+    path following symlinks (C06_helpers.file_test), i.e. the Result is not an input read but the std bool predicate"""
+    if c.name not in ('std::fs::metadata', 'std::path::Path::metadata'):
+        return False
+    p = strip(sl.operand(f, c.args[0]))
+    dropped = [x for x in fates if x.kind == 'discarded']
+    for x in dropped:
+        if x.via is None or x.via.fn is not f:
+            return False
+        ft = H.file_test(sl, sl._call_value(f, x.via, set(), 0))
+        if ft is None or not ft[2] or strip(ft[1]) != p:
+            return False
+    return bool(dropped) and all(x.kind in ('discarded', 'propagated', 'returned', 'matched') for x in fates)
 
 
 def run(ctx, rep):
@@ -120,7 +156,7 @@ def run(ctx, rep):
             'buildpack_dir': bp_dir,
             'target': lambda v: strip(v)[0] == 'agg' and (strip(v)[1] or '').endswith('target::Target'),
             'platform': lambda v: propagated(v) and core(v)[0] == 'call' and core(v)[1] == 'libcnb::platform::Platform::from_path' and is_arg('platform_dir_path')(core(v)[2][0]),
-            'buildpack_descriptor': lambda v: propagated(v) and L.comps(toml_read_path(v), lambda y: bp_dir(y)) == ('buildpack.toml',),
+            'buildpack_descriptor': lambda v: propagated(v) and comps_p(toml_read_path(v), bp_dir) == ('buildpack.toml',),
         }
         if adt == 'BuildContext':
             checks['layers_dir'] = is_arg('layers_dir_path')
@@ -156,14 +192,20 @@ def run(ctx, rep):
                         ('Build', {'layers_dir_path': '[1]', 'platform_dir_path': '[2]', 'buildpack_plan_path': '[3]'})):
         pf = prog.fn('libcnb::runtime::%sArgs::parse' % phase)
         rep.analysed(pf)
-        v = sl.local(pf, 0)
+        # private helpers the parsing is split into are transparent; "element k of argv" is read in its normal form
+        # (C06_helpers.element: slice patterns, split_first / sub-slices / slice->array conversions / array::map)
+        v = sl.inline_deep(sl.local(pf, 0))
         agg = next((x for x in walk(v) if x[0] == 'agg' and (x[1] or '').endswith('%sArgs' % phase)), None)
         got = {}
         if agg:
             for name, fv in agg[3]:
-                fv = stringy(strip(fv))
-                fv = strip(fv)
-                got[name] = fv[2] if fv[0] == 'index' and strip(fv[1])[0] == 'param' else vstr(fv)[:40]
+                for _ in range(8):
+                    fv = strip(stringy(strip(fv)))
+                    nf = H.element(sl, fv)
+                    if nf == fv:
+                        break
+                    fv = nf
+                got[name] = fv[2] if fv[0] == 'index' and strip(fv[1])[0] == 'param' and strip(fv[1])[1] == pf.path else vstr(fv)[:40]
         rep.check(got == want, 'R2', phase, '%s:%d' % (pf.file, pf.line), '%sArgs <- %s' % (phase, want), '%sArgs fields come from argv positions %s, the spec order is %s' % (phase, got, want))
     # ---- R4 ------------------------------------------------------------------------------------------
     pe = prog.fn('libcnb::platform::read_platform_env')
@@ -216,15 +258,18 @@ def run(ctx, rep):
                     pathv = ('call', 'std::fs::DirEntry::path', (entry,)) if k1 else None
             okk = okk and k1
             okv = okv and readp is not None and pathv is not None and readp == pathv and propagated(vraw)
-            guard = [(val, oc) for cd, views, subj in gs if cd.kind == 'bool' for val, oc in views
-                     if val[0] == 'call' and val[1].startswith('std::path::Path::')]
-            okg = okg and any(val[1] == 'std::path::Path::is_file' and oc is True and pathv is not None and strip(val[2][0]) == pathv for val, oc in guard)
+            # the file-type tests among the guards, in normal form (Path::is_file(p) = fs::metadata(p) succeeded and says
+            # is_file, however that is spelled: C06_helpers.file_test)
+            guard = [(val, oc, H.file_test(sl, val)) for cd, views, subj in gs if cd.kind == 'bool' for val, oc in views]
+            guard = [(val, oc, ft) for val, oc, ft in guard if ft is not None or (val[0] == 'call' and val[1].startswith('std::path::Path::'))]
+            okg = okg and any(ft is not None and ft[0] == 'is_file' and ft[2] and oc is True and pathv is not None and strip(ft[1]) == pathv
+                              for val, oc, ft in guard)
             if not (okk and okv and okg):
                 break
         rep.check(okk, 'R4', 'key', c.where(), 'key = file name of an entry of <platform>/env', 'variable name is ' + vstr(kv)[:120])
         rep.check(okv, 'R4', 'value', c.where(), 'value = read_to_string(same entry)?, unmodified', 'variable value is ' + vstr(vv)[:140])
         rep.check(okg, 'R4', 'guard', c.where(), 'guarded by Path::is_file(entry) (follows symlinks)',
-                  'insert guard is %s' % ['%s == %s' % (vstr(val)[:80], oc) for val, oc in guard])
+                  'insert guard is %s' % ['%s == %s' % (vstr(val)[:80], oc) for val, oc, ft in guard])
     # NotFound tolerance on the listing
     errs = [d for d in pe.whole_defs(0) if d[0] == 'stmt' and d[3]['r'] == 'agg' and d[3].get('variant') == 'Err']
     oks = [d for d in pe.whole_defs(0) if d[0] == 'stmt' and d[3]['r'] == 'agg' and d[3].get('variant') == 'Ok']
@@ -283,7 +328,10 @@ def run(ctx, rep):
                     cds = conditions(g, bi, sl)
                     e1 = any(cd.kind == 'variant' and cd.outcome == frozenset({'Err'}) and any(x[0] == 'call' and x[1].endswith('read_toml_file') for x in walk(cd.subject)) for cd in cds)
                     e2 = any(cd.kind == 'variant' and cd.outcome == frozenset({'IoError'}) for cd in cds)
-                    e3 = any(cd.kind == 'bool' and any(oc is True and val[0] == 'call' and val[1] == nf_pred for val, oc in cd.views()) for cd in cds)
+                    # "the I/O error is NotFound": the workspace's not-found predicate, or `kind() == NotFound` / `matches!`
+                    # written out (C06_helpers.not_found_test) on an error that stems from this read
+                    e3 = any(holds is True and any(x[0] == 'call' and x[1].endswith('read_toml_file') for x in walk(ev))
+                             for cd in cds for ev, holds in H.not_found_test(cd.views() if cd.kind == 'bool' else [], cd, nf_pred))
                     st_ok = e1 and e2 and e3
                     detail = 'Err=%s IoError=%s not_found=%s' % (e1, e2, e3)
     rep.check(st_ok, 'R5', 'store/none', '%s:%d' % (rb.file, rb.line), 'store = None only for Err(IoError(e)) with e.kind() == NotFound', 'store tolerance: ' + detail)
@@ -319,7 +367,11 @@ def run(ctx, rep):
             k = per.get((c.name, tagv), 0)
             per[(c.name, tagv)] = k + 1
             subj = '%s/%s%s#%d' % (f.path, c.name, '(%s)' % tagv if tagv else '', k)
-            if vd in ('ok', 'panics'):
+            if vd == 'discarded' and c.args and stat_predicate(sl, f, c, fates):
+                # fs::metadata(p).is_ok_and(|m| m.is_file()) *is* the bool predicate Path::is_file(p) of std (a failed stat
+                # means "not a regular file"); what the predicate guards is R4's obligation
+                rep.holds('R6', subj, c.where(), 'a stat used as the std file-type predicate (Path::is_file / is_dir / exists)')
+            elif vd in ('ok', 'panics'):
                 rep.holds('R6', subj, c.where(), 'result propagated')
             elif vd == 'discarded':
                 rep.violated('R6', subj, c.where(), 'the Result of %s%s is dropped (%s): an unreadable input is silently treated as absent'
